@@ -5,7 +5,7 @@
    gathered by check(), reported by finalize()).  Schedules: `mw` is the max_workers argument,
    `cpu` the core count, `sched` the order in which the futures complete. *)
 From Coq Require Import Permutation.
-From TL Require Import Lib.Base Lib.GenTypes Model.OrchParTypes Gen.OrchParGen Model.OrchPar
+From TL Require Import Lib.Base Lib.GenTypes Model.OrchParTypes Gen.OrchParGen Model.OrchPar Model.OrchParPool Proofs.OrchParPool
      Proofs.OrchParDict Proofs.OrchParMain Actual.OrchParActual Proofs.OrchParRegress.
 
 Section C07.
@@ -53,6 +53,21 @@ Section C07.
               (seq_run file evidence perfile collect report files).
   Proof. exact (par_equals_seq file evidence perfile collect report parent_sees perfile_wf report_nil). Qed.
 
+  (* 2b. the directory entry points lint_directory / lint_directory_parallel, recursive or not *)
+  Theorem C07_directory_parallel_equals_sequential : forall (dir : Type) (walk : dir -> bool -> list file) q mw cpu sched d recursive,
+    Permutation sched (seq 0 (List.length (walk d recursive))) ->
+    out_equiv (dir_par_run file evidence dir perfile collect report parent_sees walk q mw cpu sched d recursive)
+              (dir_seq_run file evidence dir perfile collect report walk d recursive).
+  Proof. exact (dir_par_equals_dir_seq file evidence perfile collect report parent_sees perfile_wf report_nil). Qed.
+
+  (* 2c. any set of files and directories on one command line: the file targets form a group, each directory another;
+         every group runs on its own pool with its own completion order *)
+  Theorem C07_targets_parallel_equals_sequential : forall q mw cpu scheds groups,
+    Forall2 (fun s g => Permutation s (seq 0 (List.length g))) scheds groups ->
+    out_equiv (groups_par_run file evidence perfile collect report parent_sees q mw cpu scheds groups)
+              (groups_seq_run file evidence perfile collect report groups).
+  Proof. exact (groups_par_equals_groups_seq file evidence perfile collect report parent_sees perfile_wf report_nil). Qed.
+
   (* 3. schedule independence holds for EVERY vector *)
   Theorem C07_schedule_independent : forall q mw cpu s1 s2 files,
     Permutation s1 (seq 0 (List.length files)) -> Permutation s2 (seq 0 (List.length files)) ->
@@ -66,6 +81,46 @@ Section C07.
   Proof. exact (par_perfile_complete file evidence perfile collect report parent_sees perfile_wf). Qed.
 
 End C07.
+
+(* 4. THE POOL: a worker process serves several files and keeps process-level state between them (`step s f` =
+      lint_file for f in a worker whose state is s; `assign` = which worker takes which task).  If the outcome for
+      a file does not depend on that state (validated by the worker-history stream of the check), the pooled run
+      IS the fresh-process-per-file run, so the assignment of files to workers does not matter and the main theorem
+      holds for the pooled run. *)
+Section C07Pool.
+  Variables file evidence wstate : Type.
+  Variable step : wstate -> file -> option (list violation) * wstate.
+  Variable init : wstate.
+  Variable collect : file -> evidence.
+  Variable report : list evidence -> list violation.
+  Variable parent_sees : file -> bool.
+  Hypothesis state_irrelevant : forall s f, fst (step s f) = fst (step init f).
+
+  Theorem C07_pooled_is_fresh : forall q mw cpu assign sched files,
+    par_run_pooled file evidence wstate step init collect report parent_sees q mw cpu assign sched files
+    = par_run file evidence (fresh_perfile file wstate step init) collect report parent_sees q mw cpu sched files.
+  Proof. exact (pooled_is_fresh file evidence wstate step init collect report parent_sees state_irrelevant). Qed.
+
+  Theorem C07_assignment_independent : forall q mw cpu a1 a2 sched files,
+    par_run_pooled file evidence wstate step init collect report parent_sees q mw cpu a1 sched files
+    = par_run_pooled file evidence wstate step init collect report parent_sees q mw cpu a2 sched files.
+  Proof. exact (assignment_independent file evidence wstate step init collect report parent_sees state_irrelevant). Qed.
+
+  Hypothesis perfile_wf : forall f vs, fresh_perfile file wstate step init f = Some vs -> forallb wf_violation vs = true.
+  Hypothesis report_nil : report [] = [].
+
+  Theorem C07_pooled_equals_sequential : forall q mw cpu assign sched files,
+    Permutation sched (seq 0 (List.length files)) ->
+    out_equiv (par_run_pooled file evidence wstate step init collect report parent_sees q mw cpu assign sched files)
+              (seq_run file evidence (fresh_perfile file wstate step init) collect report files).
+  Proof. exact (pooled_equals_seq file evidence wstate step init collect report parent_sees state_irrelevant perfile_wf report_nil). Qed.
+End C07Pool.
+
+(* the hypothesis of 4 is necessary *)
+Theorem C07_stateful_worker_breaks_assignment_independence :
+  par_run_pooled nat nat nat cnt_step 0 (fun f => f) (fun _ => []) (fun _ => true) ideal (Some 1) 16 [0;0] [0;1] [0;1]
+  <> par_run_pooled nat nat nat cnt_step 0 (fun f => f) (fun _ => []) (fun _ => true) ideal (Some 1) 16 [0;1] [0;1] [0;1].
+Proof. exact stateful_worker_breaks_assignment_independence. Qed.
 
 (* 5. equal multisets: equal command output (any rule-id filter) and equal exit status *)
 Theorem C07_cli_output_equiv : forall cmd a b, out_equiv a b -> out_equiv (cli_view cmd a) (cli_view cmd b).
@@ -106,8 +161,14 @@ Print Assumptions C07_dict_roundtrip_fields.
 Print Assumptions C07_parallel_equals_sequential.
 Print Assumptions C07_parallel_equals_sequential_flag_off.
 Print Assumptions C07_parallel_equals_sequential_gen.
+Print Assumptions C07_directory_parallel_equals_sequential.
+Print Assumptions C07_targets_parallel_equals_sequential.
 Print Assumptions C07_schedule_independent.
 Print Assumptions C07_perfile_complete.
+Print Assumptions C07_pooled_is_fresh.
+Print Assumptions C07_assignment_independent.
+Print Assumptions C07_pooled_equals_sequential.
+Print Assumptions C07_stateful_worker_breaks_assignment_independence.
 Print Assumptions C07_cli_output_equiv.
 Print Assumptions C07_exit_code_equal.
 Print Assumptions C07_crossfile_regression.
